@@ -513,8 +513,7 @@ fn bstr_or_nil(c: &mut Ctx, i: &Item, rule: &'static str) -> Option<Vec<u8>> {
     }
 }
 
-/// ASCII whitespace that must not lead or trail a content type.  Other Unicode White_Space at the
-/// ends is left unspecified.
+/// Text content types: non-empty, exactly one '/', no leading or trailing whitespace.
 fn content_type_text(c: &mut Ctx, t: &str) {
     if t.is_empty() {
         c.other("H6 content type text empty");
@@ -522,11 +521,10 @@ fn content_type_text(c: &mut Ctx, t: &str) {
     }
     let first = t.chars().next().unwrap();
     let last = t.chars().last().unwrap();
-    let ascii_ws = |ch: char| matches!(ch, ' ' | '\t' | '\n' | '\r' | '\u{0b}' | '\u{0c}');
-    if ascii_ws(first) || ascii_ws(last) {
+    // "no leading or trailing whitespace": Unicode White_Space (which includes the ASCII controls
+    // TAB, LF, VT, FF, CR and the space)
+    if first.is_whitespace() || last.is_whitespace() {
         c.other("H6 content type whitespace");
-    } else if first.is_whitespace() || last.is_whitespace() {
-        c.unspec("non-ASCII whitespace around content type");
     }
     if t.chars().filter(|ch| *ch == '/').count() != 1 {
         c.other("H6 content type not type/subtype");
